@@ -479,12 +479,88 @@ def small_job(ck, prog, natbin, rn, quick):
             ck.report("%s:%s" % (rn, why[:40]), why, {"property": "C16", "crate": "hderive", "request": "(di T1 \"struct Foo<T: Clone = u8> { f: u8 }\")", "symbolic": rep(g)[:600]})
 
 
+class GPol(syn_models.SynPolicy):
+    """symbolic `syn::Generics`: 0..2 parameters of any kind, where clause present or not"""
+
+    def len_bounds(self, I, st, name, t):
+        if name == "g*.params":
+            return (0, 2)
+        return (0, 1)
+
+
+def generics_job(ck, prog, natbin):
+    """`ast::Generics<ast::GenericParam>` (the darling::ast form of the `generics` magic field): one parameter per input parameter, in
+    order and of the same kind, and the where clause is the input's (present iff present) - whatever the parameter count"""
+    native = Native(natbin)
+    I = Interp(prog, models.all_models(OPTS), GPol(), timeout_ms=ck.timeout_ms)
+    e = prog.entry("entry_ast_generics")
+    leaves = I.explore(e, [Lazy("g", e.local_tys[1])])
+    ck.absorb(I, leaves, "entry_ast_generics")
+    ck.check_exhaustive(I, leaves, "ast_generics")
+    kinds = {0: "Lifetime", 1: "Type", 2: "Const"}
+    decl = {0: "'a", 1: "T", 2: "const N: usize"}
+    for l in leaves:
+        np_ = l.decisions.get("g*.params#len", 0)
+        wc = l.decisions.get("g*.where_clause#d")
+        pk = [l.decisions.get("g*.params[%d]#d" % i) for i in range(np_)]
+        ps = ", ".join(decl.get(k, "U") if i == 0 or pk[0] != k else {0: "'b", 1: "U", 2: "const M: usize"}[k] for i, k in enumerate(pk))
+        src = "struct Foo%s%s;" % ("<%s>" % ps if np_ else "", " where u8: Copy" if wc != 0 else "")      # never looked at: the witness is the completion that has one
+        req = "(ast_generics _ %s)" % sx_str(src)
+        if l.status == "panicked":
+            replay_panic(ck, native, "ast_generics", l, req, {"crate": "hderive"})
+            continue
+        if l.status != "returned":
+            ck.obligations += 1
+            ck.engine("ast_generics: leaf %s %s" % (l.status, l.info or l.panics))
+            continue
+        got = view(I, l, l.ret, e.local_tys[0])
+        good, why = True, ""
+        if not (isinstance(got, dict) and got.get("_v") == "Ok"):
+            good, why = False, "rejected: converting generic parameters by cloning cannot fail"
+        else:
+            g = got["0"]
+            gp = g["params"]
+            if isinstance(gp, L):
+                gp = []
+            if wc is None:
+                # the where clause was moved as a whole without being looked at
+                if not is_input(g["where_clause"], "g*.where_clause"):
+                    good, why = False, "where clause is not the input's"
+            elif wc == 1:
+                gw = g["where_clause"]
+                if not (isinstance(gw, dict) and gw.get("_v") == "Some" and is_input(gw["0"], "g*.where_clause.Some.0")):
+                    good, why = False, "the input's where clause is dropped or replaced"
+            else:
+                gw = g["where_clause"]
+                if not (isinstance(gw, dict) and gw.get("_v") == "None"):
+                    good, why = False, "a where clause appears although the input has none"
+            if good and len(gp) != np_:
+                good, why = False, "%d parameters for %d declared" % (len(gp), np_)
+            for i, q in enumerate(gp if good else []):
+                k = kinds.get(pk[i])
+                if not (isinstance(q, dict) and q.get("_v") == k and is_input(q["0"], "g*.params[%d].%s.0" % (i, k))):
+                    good, why = False, "parameter %d is not the input's parameter %d (%s)" % (i, i, k)
+                    break
+        ck.reach("generics:%d" % np_)
+        if good:
+            ck.ok()
+            continue
+        ck.obligations += 1
+        nat = native.ask(req)
+        okn = isinstance(nat, dict) and isinstance(nat.get("result"), dict) and isinstance(nat["result"].get("ok"), dict)
+        if okn and nat["result"]["ok"].get("params") == np_ and (nat["result"]["ok"].get("where") is not None) == (wc != 0):
+            ck.engine("ast_generics: %s, but the native run mirrors the input (%s -> %s)" % (why, req, str(nat)[:160]))
+            continue
+        ck.report("ast_generics:%s" % why[:40], why, {"property": "C16", "crate": "hderive", "request": req, "observed": nat, "symbolic": rep(got)[:600]})
+    native.close()
+
+
 def prepare(ck):
     """configure `ck` and return the list of jobs of this property's exploration"""
     ck.crate = "hderive"
     quick = ck.tier == "quick"
     NF = 2 if quick else 3
-    ck.bounds = {"fields_or_variants": "0..%d without attributes; with 0..1 attribute each: 0..1 of both, 0..2 fields of a struct, 0..2 fields of one variant, 0..2 attributed variants of 0..1 plain field" % NF, "attributes_per_field": "0..1", "receivers": ["D4 (ident, vis, generics, data: Data<V1, F1>)", "F1", "V1", "T1"]}
+    ck.bounds = {"fields_or_variants": "0..%d without attributes; with 0..1 attribute each: 0..1 of both, 0..2 fields of a struct, 0..2 fields of one variant, 0..2 attributed variants of 0..1 plain field" % NF, "attributes_per_field": "0..1", "receivers": ["D4 (ident, vis, generics, data: Data<V1, F1>)", "F1", "V1", "T1", "ast::Generics<ast::GenericParam> over 0..2 parameters of any kind, where clause present / absent"]}
     ck.outside = ["re-printing a converted field list (`Fields::to_tokens`: quote! output, token model - stage B)", "more fields / variants than the bound",
                   "magic members wrapped in SpannedValue / WithOriginal / Result (their element-level impls delegate like the FromMeta ones: C12)"]
     ck.assumptions = ["syn invariants: named fields carry an identifier, tuple fields do not", "Clone of syn data is a structural copy"]
@@ -495,14 +571,16 @@ def prepare(ck):
             lambda sub: d4_job(sub, prog, natbin, 2, 1, quick, only=("Struct",)),
             lambda sub: d4_job(sub, prog, natbin, 2, 1, quick, only=("Enum",), NV=1),
             lambda sub: d4_job(sub, prog, natbin, 1, 0, quick, only=("Enum",), NV=2, MV=1),
-            lambda sub: small_job(sub, prog, natbin, "T1", quick)]
+            lambda sub: small_job(sub, prog, natbin, "T1", quick),
+            lambda sub: generics_job(sub, prog, natbin)]
+    ck.programs.add("hderive::entry_ast_generics (ast::Generics<ast::GenericParam> as FromGenerics)")
     return jobs
 
 
 def main():
     ck = Check("C16")
     ck.run_jobs(prepare(ck))
-    ck.require_reached(["struct:ok", "enum:ok", "union:err", "struct:err", "enum:err", "T1"])
+    ck.require_reached(["struct:ok", "enum:ok", "union:err", "struct:err", "enum:err", "T1", "generics:0", "generics:1", "generics:2"])
     ck.finish()
 
 
